@@ -1,6 +1,6 @@
 (* C04, round 5: ownership theorems about the heap model of cp_mode_dot's copy flag (Model/TransformsHeap.v). *)
 From Coq Require Import List Arith Lia Bool ZArith.
-From TLV Require Import Base.Shape Base.PyList Base.Tensor Base.BigSum Base.Ops Model.Transforms Model.TransformsHeap.
+From TLV Require Import Base.Shape Base.PyList Base.Tensor Base.BigSum Base.Ops Model.Transforms Model.TransformsHeap Proofs.TransformsProofs.
 Import ListNotations.
 
 (* ---------------------------------------------------------------- list surgery *)
@@ -592,6 +592,29 @@ Proof.
     rewrite Forall_forall in Hwf. apply Hwf. eapply nth_error_In; eauto.
 Qed.
 End HP.
+
+(* ---------------------------------------------------------------- end to end on the heap (ring regime) *)
+Section HPR.
+Context {F : Type} (Op : fops F).
+Hypothesis Rth : ring_theory (f0 Op) (f1 Op) (fadd Op) (fmul Op) (fsub Op) (fopp Op) (@eq F).
+(* copy=True, weights given: whatever the aliasing among the caller's arrays, contracting a vector gives an object whose entries are
+   the mode product of what the operand denoted (the statement that FAILS for copy=False on the current tree, see the witness below) *)
+Theorem cp_mode_dot_h_copy_contract_entry (h : heap (F:=F)) r v k h' o idx' l :
+  wf_ref h r -> ref_w h r = Some l ->
+  cp_mode_dot_h Op h r true (OpVec v) k false = Ok (h', o) ->
+  S (length idx') = length (operand_fs (deref h r)) ->
+  length (operand_w Op (deref h r)) <= ncols (nth k (operand_fs (deref h r)) []) ->
+  cpo_shape (read_obj h' o) = remove_nth k (cp_shape (operand_fs (deref h r))) /\
+  cp_entry Op (cpo_w (read_obj h' o)) (cpo_fs (read_obj h' o)) idx' =
+  sumn Op (length (nth k (operand_fs (deref h r)) []))
+       (fun i => fmul Op (vget Op v i) (cp_entry Op (operand_w Op (deref h r)) (operand_fs (deref h r)) (insert_at k i idx'))).
+Proof.
+  intros Hwf Hw E Hlen Hr.
+  destruct (cp_mode_dot_h_copy_fresh Op h r (OpVec v) k false h' o Hwf E) as (_ & _ & _ & _ & w' & fs' & Hp & E1 & E2 & E3).
+  rewrite Hw in E3. rewrite E1, E2, E3.
+  destruct (cp_mode_dot_vector_contract Op Rth _ _ _ _ _ _ idx' Hp Hlen Hr) as [Hs He]. split; [now rewrite Hs|exact He].
+Qed.
+End HPR.
 
 (* ---------------------------------------------------------------- the defect: a factor list naming one array twice *)
 Definition alias_heap : heap (F:=Z) :=
